@@ -32,7 +32,7 @@ func init() {
 		Rule:           "runs = one server state (report sets at window edges incl. banned slots, 0-6 authorized servers with location lengths 0-255 and ban flags, with/without a migration order with 0-4 new servers, after 0-2 rotations) x one genuine sync (independent decoder == server snapshot == client parser) x 40 (quick) / all-bit (thorough) tamperings: single-bit flips (all of prefix, timestamp, signature; sampled elsewhere), truncation at field boundaries, extension, rewritten length prefix, re-signing under every other key, timestamp shifts to +-86400/+-86401 s, reply bound to another device, server entries / migration orders with missing or foreign GCA signatures; every tampered reply must be rejected with client state and files unchanged; non-trivial = at least 5 tampering kinds were applied to a reply carrying servers or a migration; distinct = distinct decision signatures",
 		Real:           []string{"server sync handler (reply construction and signing)", "client staticServerSync (request, reply parser, freshness, signature, key binding, migration and per-server GCA signatures)"},
 		Stub:           []string{"TCP (simulated connection; the fabric records and tampers)"},
-		RequiredProbes: []string{"c10.genuine", "c10.genuine.migration", "c10.genuine.servers", "c10.refusal", "c10.tamper.bitflip", "c10.tamper.resign", "c10.tamper.time-accept", "c10.tamper.time-reject", "c10.tamper.foreign-server-sig", "c10.tamper.bad-migration", "c10.tamper.other-device", "c10.tamper.prefix", "c10.tamper.dup-key", "c10.tamper.whole-round", "c10.second-sync.after-ban"},
+		RequiredProbes: []string{"c10.genuine", "c10.genuine.ban-with-other-details", "c10.genuine.migration", "c10.genuine.servers", "c10.refusal", "c10.tamper.bitflip", "c10.tamper.resign", "c10.tamper.time-accept", "c10.tamper.time-reject", "c10.tamper.foreign-server-sig", "c10.tamper.bad-migration", "c10.tamper.other-device", "c10.tamper.prefix", "c10.tamper.dup-key", "c10.tamper.whole-round", "c10.second-sync.after-ban"},
 	})
 }
 
@@ -96,6 +96,20 @@ func runC10(m *Sim) {
 		loc := strings.Repeat("x", []int{0, 1, 9, 200, 255}[m.C.Int("loclen", 5)])
 		as := SignServer(gca, server.AuthorizedServer{PublicKey: Key(fmt.Sprintf("as%d", i)).Pub, Banned: m.C.Chance("banned", 1, 4), Location: loc, HttpPort: uint16(m.C.Int("port", 65536)), TcpPort: 2, UdpPort: 3})
 		n.DoAuthorizeServer(as)
+	}
+	// Later bans of listed servers: a ban names a key, the GCA may leave the
+	// address out or write another one. What the server then lists (and sends)
+	// is the ban record as signed.
+	for i := 0; i < nsrv; i++ {
+		if !m.C.Chance("later-ban", 1, 4) {
+			continue
+		}
+		ban := server.AuthorizedServer{PublicKey: Key(fmt.Sprintf("as%d", i)).Pub, Banned: true}
+		if m.C.Chance("ban-elsewhere", 1, 2) {
+			ban.Location, ban.HttpPort, ban.TcpPort, ban.UdpPort = "elsewhere.sim", 9, 9, 9
+		}
+		n.DoAuthorizeServer(SignServer(gca, ban))
+		m.Probe("c10.genuine.ban-with-other-details")
 	}
 	if nsrv > 0 {
 		m.Probe("c10.genuine.servers")
